@@ -328,3 +328,171 @@ Theorem C08_query_roundtrip_example :
   Net_Model.generic_hide_hit exq_matches [9; 7; 5; 0] b' = true.
 Proof. exact query_roundtrip_example. Qed.
 Print Assumptions C08_query_roundtrip_example.
+
+(* ------------------------------------------------------------------ the round trip at the level of
+   the WHOLE engine answer (Engine_Model.engine_check / engine_csp / generichide), relative to the
+   receiver's resources and enabled tags (neither is serialized); rewritten_url aside (F8) *)
+From Adb Require Import Base Generated Wire_Model Wire_Proofs C08_Model C08_Query_Model C08_Query_Proofs C08_Engine_Model C08_Engine_Proofs.
+From Adb Require Net_Model Engine_Model C13_Model C10_Model.
+
+Theorem C08_engine_roundtrip : forall as_css build_list l e,
+  rules_ok (e_blocker (fe_state e)) -> keys_distinct (e_blocker (fe_state e)) ->
+  stores_agree (fe_store l) (fe_store e) -> forall tags,
+  let g' := fe_use_tags build_list tags (fe_install build_list l (fe_wire as_css e)) in
+  let g0 := fe_use_tags build_list tags e in
+  same_answers_but_rewritten g' g0 /\
+  (forall matches pr supported url mr fc,
+     Engine_Model.r_rewritten (fe_check matches pr supported url mr fc g') = None) /\
+  (no_removeparam (e_blocker (fe_state e)) -> same_answers g' g0).
+Proof. exact engine_roundtrip. Qed.
+Print Assumptions C08_engine_roundtrip.
+
+Theorem C08_engine_roundtrip_receiver_store : forall as_css build_list l e,
+  rules_ok (e_blocker (fe_state e)) -> keys_distinct (e_blocker (fe_state e)) -> forall tags,
+  let g' := fe_use_tags build_list tags (fe_install build_list l (fe_wire as_css e)) in
+  let g0 := fe_use_tags build_list tags {| fe_state := fe_state e; fe_store := fe_store l |} in
+  same_answers_but_rewritten g' g0 /\
+  (forall matches pr supported url mr fc,
+     Engine_Model.r_rewritten (fe_check matches pr supported url mr fc g') = None) /\
+  (no_removeparam (e_blocker (fe_state e)) -> same_answers g' g0).
+Proof. exact engine_roundtrip_receiver_store. Qed.
+Print Assumptions C08_engine_roundtrip_receiver_store.
+
+Theorem C08_engine_roundtrip_kept_tags : forall as_css build_list l e,
+  rules_ok (e_blocker (fe_state e)) -> keys_distinct (e_blocker (fe_state e)) ->
+  stores_agree (fe_store l) (fe_store e) ->
+  let T := b_tags_enabled (e_blocker (fe_state l)) in
+  let g' := fe_install build_list l (fe_wire as_css e) in
+  let g0 := fe_use_tags build_list T e in
+  same_answers_but_rewritten g' g0 /\
+  (forall matches pr supported url mr fc,
+     Engine_Model.r_rewritten (fe_check matches pr supported url mr fc g') = None) /\
+  (no_removeparam (e_blocker (fe_state e)) -> same_answers g' g0).
+Proof. exact engine_roundtrip_kept_tags. Qed.
+Print Assumptions C08_engine_roundtrip_kept_tags.
+
+Theorem C08_engine_roundtrip_same : forall as_css build_list l e,
+  rules_ok (e_blocker (fe_state e)) -> keys_distinct (e_blocker (fe_state e)) ->
+  stores_agree (fe_store l) (fe_store e) ->
+  tags_installed build_list (e_blocker (fe_state e)) ->
+  b_tags_enabled (e_blocker (fe_state l)) = b_tags_enabled (e_blocker (fe_state e)) ->
+  let g' := fe_install build_list l (fe_wire as_css e) in
+  same_answers_but_rewritten g' e /\
+  (forall matches pr supported url mr fc,
+     Engine_Model.r_rewritten (fe_check matches pr supported url mr fc g') = None) /\
+  (no_removeparam (e_blocker (fe_state e)) -> same_answers g' e).
+Proof. exact engine_roundtrip_same. Qed.
+Print Assumptions C08_engine_roundtrip_same.
+
+Theorem C08_engine_self_roundtrip : forall as_css build_list e,
+  rules_ok (e_blocker (fe_state e)) -> keys_distinct (e_blocker (fe_state e)) ->
+  tags_installed build_list (e_blocker (fe_state e)) ->
+  let g' := fe_install build_list e (fe_wire as_css e) in
+  same_answers_but_rewritten g' e /\ (no_removeparam (e_blocker (fe_state e)) -> same_answers g' e).
+Proof. exact engine_self_roundtrip. Qed.
+Print Assumptions C08_engine_self_roundtrip.
+
+Theorem C08_engine_roundtrip_fresh : forall as_css build_list e rs opt tags,
+  rules_ok (e_blocker (fe_state e)) -> keys_distinct (e_blocker (fe_state e)) ->
+  fe_store e = C13_Model.from_resources rs ->
+  let l := fe_use_tags build_list tags (fe_use_resources rs (fe_new opt)) in
+  let g' := fe_install build_list l (fe_wire as_css e) in
+  let g0 := fe_use_tags build_list tags e in
+  same_answers_but_rewritten g' g0 /\ (no_removeparam (e_blocker (fe_state e)) -> same_answers g' g0).
+Proof. exact engine_roundtrip_fresh. Qed.
+Print Assumptions C08_engine_roundtrip_fresh.
+
+Theorem C08_engine_deserialize_own : forall as_css build_list decode l e,
+  decode (encode (wire_tree (fe_wire as_css e))) = Some (fe_wire as_css e) ->
+  fe_deserialize build_list decode l (fe_serialize as_css e) = Ok (fe_install build_list l (fe_wire as_css e), None).
+Proof. exact engine_deserialize_own. Qed.
+Print Assumptions C08_engine_deserialize_own.
+
+Theorem C08_engine_bytes_roundtrip : forall as_css build_list decode l e,
+  decode (encode (wire_tree (fe_wire as_css e))) = Some (fe_wire as_css e) ->
+  rules_ok (e_blocker (fe_state e)) -> keys_distinct (e_blocker (fe_state e)) ->
+  stores_agree (fe_store l) (fe_store e) ->
+  tags_installed build_list (e_blocker (fe_state e)) ->
+  b_tags_enabled (e_blocker (fe_state l)) = b_tags_enabled (e_blocker (fe_state e)) ->
+  exists g', fe_deserialize build_list decode l (fe_serialize as_css e) = Ok (g', None) /\
+             same_answers_but_rewritten g' e /\
+             (no_removeparam (e_blocker (fe_state e)) -> same_answers g' e).
+Proof. exact engine_bytes_roundtrip. Qed.
+Print Assumptions C08_engine_bytes_roundtrip.
+
+Theorem C08_engine_check_store : forall matches pr supported url s s' mr fc b, stores_agree s s' ->
+  Engine_Model.engine_check matches pr supported url s mr fc b =
+  Engine_Model.engine_check matches pr supported url s' mr fc b.
+Proof. exact engine_check_store. Qed.
+Print Assumptions C08_engine_check_store.
+
+Theorem C08_check_all_wire : forall wm m pr tags, ignores_raw wm -> bins_unions_ok m ->
+  Net_Model.check_all (net_matcher wm) (net_map m) pr tags = map net_rule (w_check_all wm m pr tags).
+Proof. exact check_all_wire. Qed.
+Print Assumptions C08_check_all_wire.
+
+Theorem C08_roundtrip_unions_ok : forall as_css build_list l e tags,
+  rules_ok (e_blocker e) -> keys_distinct (e_blocker e) ->
+  let b' := e_blocker (engine_use_tags build_list tags (install build_list l (to_wire as_css (e_blocker e) (e_cosmetic e)))) in
+  let b := e_blocker (engine_use_tags build_list tags e) in
+  (bins_unions_ok (b_csp b) -> bins_unions_ok (b_csp b')) /\
+  (bins_unions_ok (b_exceptions b) -> bins_unions_ok (b_exceptions b')) /\
+  (bins_unions_ok (b_importants b) -> bins_unions_ok (b_importants b')) /\
+  (bins_unions_ok (b_redirects b) -> bins_unions_ok (b_redirects b')) /\
+  (bins_unions_ok (b_filters_tagged b) -> bins_unions_ok (b_filters_tagged b')) /\
+  (bins_unions_ok (b_filters b) -> bins_unions_ok (b_filters b')) /\
+  (bins_unions_ok (b_generic_hide b) -> bins_unions_ok (b_generic_hide b')) /\
+  bins_unions_ok (b_removeparam b').
+Proof. exact roundtrip_unions_ok. Qed.
+Print Assumptions C08_roundtrip_unions_ok.
+
+Theorem C08_engine_roundtrip_store_refuted : exists as_css build_list l e matches pr url,
+  rules_ok (e_blocker (fe_state e)) /\ keys_distinct (e_blocker (fe_state e)) /\
+  tags_installed build_list (e_blocker (fe_state e)) /\ no_removeparam (e_blocker (fe_state e)) /\
+  b_tags_enabled (e_blocker (fe_state l)) = b_tags_enabled (e_blocker (fe_state e)) /\
+  ~ stores_agree (fe_store l) (fe_store e) /\
+  Engine_Model.r_redirect (fe_check matches pr true url false false e) = Some exe_data_url /\
+  Engine_Model.r_redirect (fe_check matches pr true url false false
+                             (fe_install build_list l (fe_wire as_css e))) = None.
+Proof. exact engine_roundtrip_store_refuted. Qed.
+Print Assumptions C08_engine_roundtrip_store_refuted.
+
+Theorem C08_engine_roundtrip_tags_refuted : exists as_css build_list l e matches pr url,
+  rules_ok (e_blocker (fe_state e)) /\ keys_distinct (e_blocker (fe_state e)) /\
+  tags_installed build_list (e_blocker (fe_state e)) /\ no_removeparam (e_blocker (fe_state e)) /\
+  stores_agree (fe_store l) (fe_store e) /\
+  b_tags_enabled (e_blocker (fe_state l)) <> b_tags_enabled (e_blocker (fe_state e)) /\
+  Engine_Model.r_matched (fe_check matches pr true url false false e) = true /\
+  Engine_Model.r_matched (fe_check matches pr true url false false
+                            (fe_install build_list l (fe_wire as_css e))) = false.
+Proof. exact engine_roundtrip_tags_refuted. Qed.
+Print Assumptions C08_engine_roundtrip_tags_refuted.
+
+Theorem C08_engine_roundtrip_example :
+  let e := exe_engine false in
+  let g' := exe_reloaded false [bs "t1"] [exe_res] in
+  rules_ok (e_blocker (fe_state e)) /\ keys_distinct (e_blocker (fe_state e)) /\
+  tags_installed exe_build (e_blocker (fe_state e)) /\ no_removeparam (e_blocker (fe_state e)) /\
+  stores_agree (fe_store (exe_receiver [bs "t1"] [exe_res])) (fe_store e) /\
+  b_tags_enabled (e_blocker (fe_state (exe_receiver [bs "t1"] [exe_res]))) = b_tags_enabled (e_blocker (fe_state e)) /\
+  fe_check exe_all exe_probes true exe_url false false g' = fe_check exe_all exe_probes true exe_url false false e /\
+  fe_check exe_all exe_probes true exe_url false false e =
+    Engine_Model.Build_result true false false true (Some exe_data_url) None /\
+  fe_csp exe_all exe_probes RT_Document g' = Some [bs "img-src *"] /\
+  fe_csp exe_all exe_probes RT_Document e = Some [bs "img-src *"].
+Proof. exact engine_roundtrip_example. Qed.
+Print Assumptions C08_engine_roundtrip_example.
+
+Theorem C08_engine_roundtrip_example_f8 :
+  let e := exe_engine true in
+  let g' := exe_reloaded true [bs "t1"] [exe_res] in
+  rules_ok (e_blocker (fe_state e)) /\ keys_distinct (e_blocker (fe_state e)) /\
+  tags_installed exe_build (e_blocker (fe_state e)) /\
+  fe_check exe_all exe_probes true exe_url false false e =
+    Engine_Model.Build_result true false false true (Some exe_data_url) (Some (bs "https://ads.net/a?b=2")) /\
+  fe_check exe_all exe_probes true exe_url false false g' =
+    Engine_Model.Build_result true false false true (Some exe_data_url) None /\
+  fe_csp exe_all exe_probes RT_Document g' = fe_csp exe_all exe_probes RT_Document e /\
+  fe_generic_hide exe_all exe_probes g' = fe_generic_hide exe_all exe_probes e.
+Proof. exact engine_roundtrip_example_f8. Qed.
+Print Assumptions C08_engine_roundtrip_example_f8.
